@@ -160,6 +160,10 @@ impl<'a> SendTransactionsProofProcess<'a> {
                 let witnesses_root = filtered_block.witnesses_root();
                 let proof = filtered_block.proof();
                 let indices: Vec<u32> = proof.indices().into_iter().map(|v| v.unpack()).collect();
+                // the merkle tree library computes `index + 1`
+                if indices.contains(&u32::MAX) {
+                    return StatusCode::InvalidProof.into();
+                }
                 let lemmas: Vec<packed::Byte32> = proof.lemmas().into_iter().collect();
                 let merkle_proof = MerkleProof::new(indices, lemmas);
                 match merkle_proof
